@@ -276,36 +276,42 @@ def run(ctx):
     ctx.ob("C01.c", v2r.qual, r2_ok, "V2 read returns the queued packet", func=v2r.qual, file=v2r.module.rel, construct="read", fail="V2 read does not return the queued packet")
     # every constructed response reaches _update_state
     for q in (f"{AC}.refresh", f"{AC}.apply", f"{AC}._apply_properties"):
-        f = ctx.fn(q)
-        fs = summarize(prog, f)
-        fors = [n for n in ast.walk(f.node) if isinstance(n, ast.For)]
-        # loops that only gather the responses into a list another loop then walks are judged through that other loop
-        gatherers = set()
-        for l2 in fors:
-            it2 = fs.ta.terms_at.get(l2.iter)
-            it2 = strip(it2) if it2 is not None else None
-            if it2 is not None and it2[0] == "loopvar" and collect_loop(fs, f, it2) is not None:
-                outer = next((l for l in fors if l.lineno == it2[2]), None)
-                if outer is not None:
-                    gatherers |= {n for n in ast.walk(outer) if isinstance(n, ast.For)}
-        for lpn in fors:
-            if lpn in gatherers:
-                continue
-            it = fs.ta.terms_at.get(lpn.iter)
-            src = collect_loop(fs, f, strip(it)) if it is not None else None
-            if it is None or not any(call_is(x, f"{AC}._send_command_get_responses") for x in list(subterms(it)) + list(subterms(src or ()))):
-                continue
-            ctx.count("update_loops")
-            body_calls = [n for n in ast.walk(lpn) if isinstance(n, ast.Call) and attr_call(n, "_update_state")]
-            uncond = any(isinstance(st, ast.Expr) and st.value is c for st in lpn.body for c in body_calls)
-            arg_ok = all(isinstance(c.args[0], ast.Name) and isinstance(lpn.target, ast.Name) and c.args[0].id == lpn.target.id for c in body_calls)
-            its = strip(it)
-            whole = (its[0] == "await" and call_is(strip(its[1]), f"{AC}._send_command_get_responses")) or \
-                (its[0] == "comp" and its[1] == "list" and its[2] == ("bound", its[3][-1][0]) and all(not g[2] for g in its[3])) or \
-                collect_loop(fs, f, its) is not None
-            uncond = uncond and whole
-            ctx.ob("C01.c", q, uncond and arg_ok, f"{q.split('.')[-1]}: every response of the exchange is passed to _update_state", func=q, file=f.module.rel, node=lpn,
-                   fail=f"{q.split('.')[-1]} does not apply every response it received (only some / the first / under a condition)")
+        q_fn = ctx.fn(q)
+        n_q = 0
+        from ..helpers import with_helpers as _wh
+        for f in _wh(prog, q_fn):          # (the operation itself and the helpers it hands the exchange to)
+            fs = summarize(prog, f)
+            fors = [n for n in ast.walk(f.node) if isinstance(n, ast.For)]
+            # loops that only gather the responses into a list another loop then walks are judged through that other loop
+            gatherers = set()
+            for l2 in fors:
+                it2 = fs.ta.terms_at.get(l2.iter)
+                it2 = strip(it2) if it2 is not None else None
+                if it2 is not None and it2[0] == "loopvar" and collect_loop(fs, f, it2) is not None:
+                    outer = next((l for l in fors if l.lineno == it2[2]), None)
+                    if outer is not None:
+                        gatherers |= {n for n in ast.walk(outer) if isinstance(n, ast.For)}
+            for lpn in fors:
+                if lpn in gatherers:
+                    continue
+                it = fs.ta.terms_at.get(lpn.iter)
+                src = collect_loop(fs, f, strip(it)) if it is not None else None
+                if it is None or not any(call_is(x, f"{AC}._send_command_get_responses") for x in list(subterms(it)) + list(subterms(src or ()))):
+                    continue
+                ctx.count("update_loops")
+                n_q += 1
+                body_calls = [n for n in ast.walk(lpn) if isinstance(n, ast.Call) and attr_call(n, "_update_state")]
+                uncond = any(isinstance(st, ast.Expr) and st.value is c for st in lpn.body for c in body_calls)
+                arg_ok = all(isinstance(c.args[0], ast.Name) and isinstance(lpn.target, ast.Name) and c.args[0].id == lpn.target.id for c in body_calls)
+                its = strip(it)
+                whole = (its[0] == "await" and call_is(strip(its[1]), f"{AC}._send_command_get_responses")) or \
+                    (its[0] == "comp" and its[1] == "list" and its[2] == ("bound", its[3][-1][0]) and all(not g[2] for g in its[3])) or \
+                    collect_loop(fs, f, its) is not None
+                uncond = uncond and whole
+                ctx.ob("C01.c", q, uncond and arg_ok, f"{q.split('.')[-1]}: every response of the exchange is passed to _update_state", func=q, file=f.module.rel, node=lpn,
+                       fail=f"{q.split('.')[-1]} does not apply every response it received (only some / the first / under a condition)")
+        ctx.ob("C01.c", q, n_q >= 1, f"{q.split('.')[-1]} walks the responses of its exchange", func=q, file=q_fn.module.rel, construct="update loop",
+               fail=f"{q.split('.')[-1]} no longer passes the responses of its exchange to _update_state")
     rf = ctx.fn(f"{AC}.refresh")
     rfs = summarize(prog, rf)
     comp = [t for n, t in rfs.ta.terms_at.items() if isinstance(n, ast.ListComp)]
